@@ -1,6 +1,7 @@
 import GeffModel.Proto
 import GeffModel.Tracklet
 import GeffModel.TrackletData
+import GeffModel.TrackletHist
 open Lean Geff Geff.Proto Geff.Tracklet
 
 def verdictJson : Verdict Int → Json
@@ -44,14 +45,65 @@ def dataJson : DataOutcome → Json
   | .indexError => Json.mkObj [("outcome", "IndexError")]
   | .raised n => Json.mkObj [("outcome", n)]
 
+def arraysJson : ArraysOutcome → Json
+  | .raised n => Json.mkObj [("exc", n)]
+  | .result v msgs => Json.mkObj [("valid", Json.bool v), ("messages", Json.arr (msgs.map Json.str).toArray)]
+
+def getNatField (j : Json) (k : String) : Except String Nat := do
+  (← j.getObjVal? k).getNat?
+
+def getPropRefs (j : Json) : Except String (List (String × PropRef)) := do
+  let a ← j.getArr?
+  a.toList.mapM fun p => do
+    let q ← p.getArr?
+    if q.size = 2 then
+      return (← q[0]!.getStr?, { values := ← getNatField q[1]! "values", missing := ← getOptBoolList q[1]! "missing" })
+    else throw "pair expected"
+
+def getPair (j : Json) : Except String (Int × Int) := do
+  let q ← j.getArr?
+  if q.size = 2 then return (← getInt? q[0]!, ← getInt? q[1]!) else throw "pair expected"
+
+def getHOp (j : Json) : Except String HOp := do
+  let k ← j.getObjValAs? String "k"
+  if k == "setInt" then
+    return .setInt (← getNatField j "a") (← getNatField j "i") (← getInt? (← j.getObjVal? "x"))
+  if k == "setPair" then
+    return .setPair (← getNatField j "a") (← getNatField j "i") (← getPair (← j.getObjVal? "e"))
+  if k == "loadInt" then return .loadInt (← getNatField j "a") (← getIntList (← j.getObjVal? "xs"))
+  if k == "loadPair" then return .loadPair (← getNatField j "a") (← getIntPairs (← j.getObjVal? "es"))
+  if k == "trk" then return .callTracklets (← getNatField j "n") (← getNatField j "e") (← getNatField j "l")
+  if k == "lin" then return .callLineages (← getNatField j "n") (← getNatField j "e") (← getNatField j "l")
+  if k == "data" then
+    let cj ← j.getObjVal? "cfg"
+    let cfg : TrackCfg := { tracklet := ← (← cj.getObjVal? "tracklet").getBool?,
+                            lineage := ← (← cj.getObjVal? "lineage").getBool? }
+    let tj ← j.getObjVal? "tnp"
+    let tnp ← (if tj.isNull then pure none else do pure (some (← getStrPairs tj)))
+    return .callData (← getNatField j "n") (← getNatField j "e") cfg tnp (← getPropRefs (← j.getObjVal? "props"))
+  throw s!"unknown history op {k}"
+
+def hresJson : HRes → Json
+  | .tracklets o => arraysJson o
+  | .lineages v msgs => Json.mkObj [("valid", Json.bool v), ("messages", Json.arr (msgs.map Json.str).toArray)]
+  | .data o => dataJson o
+  | .badRef => Json.mkObj [("err", "address not in the heap")]
+
 /-- requests:
 * (no "op") {"nodes":[..], "labels":[..], "edges":[[u,v],..], "missing": null | [bool..]}
   (`zip` is non-strict as in Python; "missing" present = through validate_data's node selection)
 * {"op":"arrays", nodes, labels, edges} — `validate_tracklets` on integer arrays: int64 cast, rendered messages
 * {"op":"data", cfg:{tracklet,lineage}, tnp: null | [[key,prop]..], props:[[name,{values,missing}]..], nodes, edges}
-  — the tracklet / lineage block of `validate_data` -/
+  — the tracklet / lineage block of `validate_data`
+* {"op":"hist", ints:[[..]..], pairs:[[[u,v]..]..], ops:[{"k":"setInt"|"setPair"|"loadInt"|"loadPair"|"trk"|"lin"|"data", ..}..]}
+  — `runHist`: a history of calls and in-place edits on a heap of array objects; answer {"trace":[one result per call]} -/
 def handle (j : Json) : Except String Json := do
   let op := (j.getObjValAs? String "op").toOption.getD ""
+  if op == "hist" then
+    let ints ← (← (← j.getObjVal? "ints").getArr?).toList.mapM getIntList
+    let pairs ← (← (← j.getObjVal? "pairs").getArr?).toList.mapM getIntPairs
+    let ops ← (← (← j.getObjVal? "ops").getArr?).toList.mapM getHOp
+    return Json.mkObj [("trace", Json.arr ((runHist ⟨ints, pairs⟩ ops).map hresJson).toArray)]
   if op == "arrays" then
     let nodes ← getIntList (← j.getObjVal? "nodes")
     let labels ← getIntList (← j.getObjVal? "labels")
